@@ -11,7 +11,8 @@ CONSTANTS
   ChainCanonical = FALSE
   TenantMode = "forall"
   ExportMode = "focus"
-  SampleMod = 9973
+  SampleMod = 99991
   SampleRes = 0
+  NearMod = 97
 INVARIANTS ForAllManifests
 CHECK_DEADLOCK FALSE
